@@ -189,6 +189,12 @@ def run(prop, tier):
             bad_v = "%d.%d.%d" % (have[0], have[1] + 1, 0)
             jobs.append(("mixed", model, (ok_v, bad_v), False, None))
             jobs.append(("mixed", model, (bad_v, ok_v), False, None))
+            # every kind of incompatible requirement next to a compatible one, in both orders (the verdict on one stream
+            # must not colour the next)
+            for other in ("%d.0.0" % (have[0] + 1), "%d.%d.0" % (have[0] + 1, have[1]), "1.x") + (("%d.0.0" % (have[0] - 1), "%d.%d.0" % (have[0] - 1, have[1] + 5)) if have[0] > 0 else ()):
+                jobs.append(("mixed", model, (ok_v, other), False, None))
+                jobs.append(("mixed", model, (other, ok_v), False, None))
+                jobs.append(("mixed", model, ("%d.0.0" % have[0], other), False, None))
             jobs.append(("mixed", model, (ok_v, "%d.0.0" % have[0]), True, None))
             if model != "ovni":
                 # the model is required by one stream only (either one): it is enabled for the whole trace
@@ -208,6 +214,9 @@ def run(prop, tier):
             bad_v = "%d.%d.%d" % (have[0], have[1] + 1, 0)
             for pos in range(4):
                 jobs.append(("mixed3", model, (pos, bad_v), False, None))
+                if have[0] > 0:
+                    jobs.append(("mixed3", model, (pos, "%d.0.0" % (have[0] - 1)), False, None))
+                jobs.append(("mixed3", model, (pos, "%d.0.0" % (have[0] + 1)), False, None))
                 jobs.append(("mixed3", model, (pos, "1.x"), False, None))
                 jobs.append(("mixed3", model, (pos, bad_v), False, ("-a",)))
                 if model != "ovni":
